@@ -166,7 +166,7 @@ class Builder:
         fill(self.root, 0)
         # nearly full volumes (FAT12 only: small enough): one filler file takes all but a few of the remaining clusters, so
         # that a later allocation scan runs to the very end of the table (spare entries after the last cluster are zero here)
-        self.nearfull = self.bits == 12 and not self.maxfat and r.chance(1, 3)
+        self.nearfull = self.bits == 12 and not self.maxfat and self.cs <= 4096 and r.chance(1, 3)     # filler stays below the read limit of the traversal
         if self.nearfull:
             keep = r.range(0, 3)
             dirs_need = 12
